@@ -507,3 +507,30 @@ def c03j(ctx):
         else:
             ctx.bad('%s:%s' % (o.rule, o.construct), o.msg, o.where)
     ctx.stats['functions'] |= sub.stats['functions']
+
+
+@rule('C03.k', floor=2)
+def c03k(ctx):
+    """which requests get tiles at all: a request coarser than the coarsest level times max_shrink_factor is answered with "no tiles"
+    (NoTiles), every other request with the closest level.  The bound is that of the *coarsest* level, resolutions[0] -- measured
+    against the level that was just chosen the test can never fire for the coarsest level itself by more than the stretch factor, and
+    requests over the whole world are answered by shrinking thousands of tiles"""
+    fn = ctx.fn(G + ':TileGrid.get_affected_bbox_and_level')
+    g = fn.cfg
+    rs = [n for n in g.find_stmts(lambda s: isinstance(s, ast.Raise) and s.exc is not None and 'NoTiles' in unparse(s.exc))]
+    if not rs:
+        raise Undecided('get_affected_bbox_and_level: raise NoTiles not found')
+
+    def bound(at):
+        if at.op != '<':
+            return False
+        l = fn.canon.expr(at.left)
+        return set(factors(l)) == {'self.resolutions[0]', 'self.max_shrink_factor'} and is_call(fn.canon.expr(at.right), 'get_resolution')
+    outside = lambda at: at.op is None and is_call(at.expr, 'bbox_intersects')        # noqa: E731  (the other reason for "no tiles")
+    ok = any(g.guarded(n, bound, True) for n in rs) and all(g.guarded(n, bound, True) or g.guarded(n, outside, False) for n in rs)
+    ctx.check(ok, 'TileGrid.get_affected_bbox_and_level:shrink-bound', 'NoTiles <=> res > resolutions[0] * max_shrink_factor', fn,
+              fail='the "no tiles" bound of get_affected_bbox_and_level is not resolutions[0] * max_shrink_factor')
+    rets = [r for r in returns_of(fn.node) if r.value is not None]
+    ok = bool(rets) and all(isinstance(r.value, ast.Tuple) and len(r.value.elts) == 2 and
+                            is_call(fn.canon.expr(r.value.elts[1]), 'self.closest_level') for r in rets)
+    ctx.check(ok, 'TileGrid.get_affected_bbox_and_level:closest-level', 'the level handed on is closest_level(res)', fn)
